@@ -19,7 +19,7 @@ impl InputOptions {
             false
         };
         let nb_threads = if let Some(nb) = args.get_one::<usize>("threads") {
-            std::cmp::min(1, *nb)
+            std::cmp::max(1, *nb)
         } else {
             std::thread::available_parallelism().map_or(32, std::num::NonZero::get)
         };
